@@ -54,6 +54,9 @@ class G:
     def foreign(self, outer, depth):
         l2 = self.rng.choice(['german', 'english', 'russian', 'german'])
         self.s += '\\foreignlanguage{' + l2 + '}{'
+        if self.rng.random() < 0.3:
+            # white space in front of a short insertion
+            self.s += self.rng.choice(['  ', '\n ', ' \t', '   '])
         n0 = len(self.words)
         self.text(LT[l2], depth, self.rng.randint(1, 5))
         self.s = self.s.rstrip(' \n')
